@@ -4,6 +4,7 @@ import (
 	"fmt"
 	"go/ast"
 	"go/token"
+	"go/types"
 	"sort"
 	"strings"
 )
@@ -102,7 +103,19 @@ func c24NotPaths(fd *ast.FuncDecl) (paths []string, why string) {
 					} else {
 						why = "return of an unmodelled expression"
 					}
+				case *ast.IncDecStmt:
+					next = append(next, c) // a counter of the parser's work, not part of the grammar
 				case *ast.IfStmt:
+					// a limit guard — a test that does not look at the token, whose body only panics, without an
+					// else — refuses oversized input; on every accepted input the path goes on unchanged
+					if !strings.Contains(types.ExprString(x.Cond), ".tok") && x.Else == nil && len(x.Body.List) == 1 {
+						if es, ok := x.Body.List[0].(*ast.ExprStmt); ok {
+							if _, ok := isCall(es.X, "panic"); ok {
+								next = append(next, c)
+								continue
+							}
+						}
+					}
 					if x.Init != nil {
 						why = "if with an init statement"
 						continue
